@@ -199,7 +199,9 @@ def work(task):
     classes = {}
     viol = []
     samples = []
-    nper = {}  # at most 3 counterexamples per outcome class and task are recorded (all are counted in evals)
+    # at most 3 counterexamples per (outcome class, known-finding family or none) and task are recorded, so that a
+    # flood of one family can never crowd out a counterexample of another kind; all are counted in evals
+    nper = {}
     for ad in atoms_of(task):
         a = build_atom(ad)
         match = a.match
@@ -208,14 +210,17 @@ def work(task):
             cls, msg = judge(ad, pd, got)
             evals += 1
             classes[cls] = classes.get(cls, 0) + 1
-            if msg is not None and nper.get(cls, 0) < 3:
-                nper[cls] = nper.get(cls, 0) + 1
-                viol.append({"atom": list(ad), "pkg": list(pd), "got": bool(got), "msg": msg})
+            if msg is not None:
+                case = {"atom": list(ad), "pkg": list(pd), "got": bool(got), "msg": msg}
+                k = (cls, family(case))
+                if nper.get(k, 0) < 3:
+                    nper[k] = nper.get(k, 0) + 1
+                    viol.append(case)
         if len(samples) < 2:
             samples.append([rm.atom_text(ad), rm.pkg_cpv(pairs[(evals * 7) % len(pairs)][0])])
-    # keep the simplest counterexamples of the task: fewest constraints first
-    viol.sort(key=lambda c: (len(rm.atom_text(tuple(_t(c["atom"])))), len(c["pkg"][5]), c["pkg"][1]))
-    return {"evals": evals, "classes": classes, "viol": viol, "samples": samples}
+    # unclassified counterexamples first, then the simplest (fewest constraints) first
+    viol.sort(key=lambda c: (family(c) is not None, len(rm.atom_text(tuple(_t(c["atom"])))), len(c["pkg"][5]), c["pkg"][1]))
+    return {"evals": evals, "classes": classes, "viol": viol, "samples": samples, "keep_all_viol": True}
 
 
 def _t(lst):
@@ -237,15 +242,16 @@ def replay(case):
 
 def _glob_raw_prefix(case):
     """'=v*' matched a package whose version text starts with v although v's components are not a prefix of the
-    package's components (and nothing else about the pair fails)."""
+    package's components, and no other constraint of the atom fails on the package (or the only other failing
+    constraint is one the known defect 'negated-use-deps-nand' lets through)."""
     ad, pd = _t(case["atom"]), _t(case["pkg"])
-    return (
-        ad[1] == "=*"
-        and case.get("got") is True
-        and rm.match_reason(ad, pd) == "ver"
-        and pd[1].startswith(ad[3])
-        and rm.match_reason(ad[:1] + ("",) + ad[2:3] + (None,) + ad[4:], pd).startswith("match")
-    )
+    if not (ad[1] == "=*" and case.get("got") is True and rm.match_reason(ad, pd) == "ver" and pd[1].startswith(ad[3])):
+        return False
+    rest = ad[:1] + ("",) + ad[2:3] + (None,) + ad[4:]
+    r = rm.match_reason(rest, pd)
+    if r in ("match", "match-default", "excluded"):
+        return True
+    return r in ("use", "use-default") and _negated_use_group({"atom": list(rest), "pkg": list(pd), "got": True})
 
 
 def _negated_use_group(case):
@@ -273,6 +279,15 @@ def _negated_use_group(case):
 
 
 CLASSIFIERS = {"glob-raw-string-prefix": _glob_raw_prefix, "negated-use-deps-nand": _negated_use_group}
+
+
+def family(case):
+    """Name of the first classifier matching the case, or None (only used to keep the recorded cases diverse)."""
+    for name, fn in CLASSIFIERS.items():
+        if fn(case):
+            return name
+    return None
+
 
 BOUNDS = {
     "quick": "35 operator/version heads (none; < <= = ~ >= > =* x 1, 1.1, 1-r1, 1_p1, 10) x 3 blocker forms x 6 slot forms x 2 repo forms x 21 "
